@@ -7,15 +7,15 @@ import pipeline as P
 from core import BaseProp, Verdict
 from proto import T
 
-RULE = ('random lists of (key, aliases, flag) entries whose names are whitespace-separated words - about half deliberately '
-        'ambiguous (same key in another case, an alias shared by two keys in another case/spacing, an alias equal to another key, '
+RULE = ('random lists of (key, aliases, flag) entries (aliases of several words, two in five with parentheses) - about half deliberately '
+        'ambiguous (same key in another case, an alias shared by two keys in another case / spacing, also around parentheses, an alias equal to another key, '
         'an operator word as alias) - each in 3 entry orders and in 3 representations (key strings where possible, LicenseSymbol '
         'objects, arbitrary objects with key/aliases/is_exception); Spec: Licensing() raises ValueError exactly when the table is '
         'Ambiguous (the order-free definition in Lean), the same in every order and representation, and accepted tables answer '
         'parse / license_keys / validate identically in every representation; correspondence: the order-dependent bookkeeping of '
         'the model (validate_symbols) gives the same verdict. Exhaustive: all ordered tables of <= 3 entries from a pool of 8. '
         'non-trivial = >= 2 entries; distinct by table')
-ASSUMPTIONS = ['entries have valid keys; names are words separated by whitespace (aliases with parentheses are exercised by C01, C04, C17)']
+ASSUMPTIONS = ['entries have valid keys']
 
 le = impl.le
 
@@ -50,7 +50,7 @@ class Prop(BaseProp):
         table = []
         for _ in range(n):
             key = gen.gen_key(rng, pool=['a', 'b', 'gpl', '2.0', 'mit'], allow_op=True)
-            al = [gen.gen_alias(rng, pool=['a', 'b', 'gpl', '2.0', 'mit', 'x'], parens=False) for _ in range(rng.choice([0, 0, 1, 2]))]
+            al = [gen.gen_alias(rng, pool=['a', 'b', 'gpl', '2.0', 'mit', 'x'], parens=rng.random() < 0.4) for _ in range(rng.choice([0, 0, 1, 2]))]
             table.append([key, al, rng.random() < 0.3])
         r = rng.random()
         if table and r < 0.5:
@@ -150,4 +150,6 @@ CORPUS = [
     {'table': [['mit', [], False], ['gpl', ['mit'], False]]},
     {'table': [['a', ['x  y'], False], ['b', ['X y'], False]]},
     {'table': [['a', ['x'], False], ['b', ['y'], False], ['a2', ['x'], False]]},
+    {'table': [['a', ['x (y)'], False], ['b', ['x(y)'], False]]},            # repaired (F9): one alias for the matcher
+    {'table': [['a', ['x (y)', 'X(Y)', 'x ( y )'], False], ['b', ['x y'], False]]},
 ]
